@@ -364,14 +364,16 @@ class C07(verif.Spec):
                     "through the coroutine, for frames of defined lines; header stage rejects PES_packet_length < 178 "
                     "and the lookahead encoding of the payload state is an invariant; resync on an intact stream from any "
                     "context at a packet boundary. That the scan reaches such a boundary after arbitrary damage stays with "
-                    "the oracle. Known finding C07-full-frame (a frame of exactly 64 lines is dropped with its successor).")
+                    "the oracle. Finding C07-full-frame (a frame of exactly 64 lines is dropped with its successor): the model follows "
+                    "both shapes of line_address (third translator-read flag lateOverflow); counterexamples for the shape "
+                    "without fixes/dvb-demux-full-frame.diff, full_frame_delivered / resync_intact for the shape with it.")
     assumptions = ["the frame callback returns TRUE", "coroutine callers pass max_lines >= 64",
                    "feed buffers are shorter than 2^32 bytes (unsigned int arithmetic does not wrap)",
                    "all bytes are < 256 (the model is over Nat lists)"]
     trusted_base = ["harness/demux_harness.c + lean/Driver/Demux.lean (op-by-op correspondence incl. resume state)",
                     "lib/demux_util.py: my transcription of EN 300 472 / EN 301 775 / ISO 13818-1 sender side",
                     "constants PES_BUF_SIZE etc. hard-coded in the model, cross-checked by the `consts` op every run"]
-    open_statements = ["resync_full (Props/C07.lean): FALSE as written - C07Cor.resync_full_counterexample (finding C07-full-frame: a frame of exactly 64 lines costs two frames); proved instead: C07Cor.resync_on_intact_stream (from ANY context at a packet boundary with room in the frame buffer, an intact stream of separable frames loses at most its first frame and is preceded by at most one stale frame) and resync_from_frame_start; still open: that after arbitrary damage the start code scan arrives at a packet boundary of the intact stream (oracle: damaged streams)",
+    open_statements = ["resync_full (Props/C07.lean): FALSE as written in every shape of the source (it quantifies over arbitrary continuations: C07Cor.resync_full_as_written_counterexample, packets without PTS; without fix dvb-demux-full-frame also C07Cor.resync_full_counterexample). Restated over intact streams as C07Cor.resync_intact_full and PROVED for the source with fix dvb-demux-full-frame and 7c6e61c (C07Cor.resync_intact: from any context at a packet boundary, whatever the frame buffer holds, at most the first frame is lost and at most one stale frame precedes); refuted without the fix (C07Cor.resync_intact_counterexample = finding C07-full-frame); for every shape C07Cor.resync_on_intact_stream (with room in the frame buffer). Still open: that after arbitrary damage the start code scan arrives at a packet boundary of the intact stream (false in general: a start code in the garbage may skip up to 65541 bytes; oracle: damaged streams)",
                        "mux_demux_roundtrip_model_full (Props/C07.lean): proved for frames whose lines all have defined line numbers (C07Cor.mux_demux_roundtrip_model, C06Join.mux_demux_roundtrip_lib); open for frames that also carry undefined-line units (C06Join.mux_demux_roundtrip_undef_full)"]
 
     # ---------------------------------------------------------------- generation
@@ -670,6 +672,10 @@ class C07(verif.Spec):
         if must_tail and ref[-len(must_tail):] != must_tail and getattr(st, "damage_kind", "") == "full_frame":
             return ("full frame: a frame that fills the 64 line buffer exactly is never delivered and the intact frame "
                     "after it is lost too (line_address reports the overflow before it tests for a new frame)")
+        if (getattr(st, "damage_kind", "") == "full_frame" and must_tail
+                and not any(f.split(" ")[1] == "n=64" for f in ref[:len(ref) - len(must_tail)])):
+            return ("full frame: the frame that fills the 64 line buffer exactly is not delivered although the frames "
+                    "after it are")
         if must_tail and ref[-len(must_tail):] != must_tail:
             if (st.kind == "pes" and getattr(st, "damage_kind", "") == "overflow"
                     and not any(f in ref for f in exp[j:])):
